@@ -280,7 +280,7 @@ def run(ctx):
     TAG = Sym("TAGARG", truthy=True, pytype=str)
     AV = Sym("ATTRVAL", truthy=True, pytype=str)
     for desc, kwargs in (("flag=True", {"toParseString": True}), ("flag=False", {"toParseString": False}), ("flag absent", {}),
-                         ("flag='yes'", {"toParseString": "yes"}), ("flag unknown bool", {"toParseString": Sym("FLAG", pytype=bool)})):
+("flag unknown bool", {"toParseString": Sym("FLAG", pytype=bool)})):
         for o, rec, parses, assumed in eval_node_factory(ctx, "C06.R9", [TAG, TXT], {**kwargs, "ref": AV}):
             if o[0] != "return":
                 r9.fail(f"node[{desc}]", f"returns an element (raised {o[1].exc_name})", node_fn.loc())
